@@ -18,7 +18,7 @@ pub const C25: Check = Check {
     id: "C25",
     level: "exploration",
     rule: "generated server histories over a universe of 6 object URIs with uniquely tagged contents: per step the server makes 0-4 \
-           updates (serial jumps), starts a new session, changes nothing (304 / same serial), shortens its delta list, or re-serves an \
+           updates (serial jumps), starts a new session, changes nothing (304 / same serial), shortens its delta list, re-issues its current serial with other content and adds a version, or re-serves an \
            earlier notification of the same session (stale front end), and renders its documents with 0-2 faults (HTTP errors, broken or \
            truncated XML, wrong snapshot/delta file hash, wrong session/serial inside a file, wrong object hash early or late in a \
            delta, gapped / duplicated / mutated delta list, missing ETag); a third of the sequences run with max-object-size 768 / 992 / 1536 / 3072 and objects up to 5 kB. After every step the real RRDP collector runs \
@@ -79,7 +79,7 @@ fn pick_faults(rng: &mut Rng) -> (Faults, String) {
         }
     };
     match rng.usize(10) {
-        0 => { let c = *rng.pick(&[404u16, 500, 503, 403, 304, 304]); f.notify_status = Some(c); names.push(if c == 304 { "notify-304-unconditionally".into() } else { "notify-status".into() }); }
+        0 => { let c = *rng.pick(&[404u16, 500, 503, 403, 304, 304, 302, 301, 307]); f.notify_status = Some(c); names.push(if c == 304 { "notify-304-unconditionally".into() } else { "notify-status".into() }); }
         1 => { f.notify_broken_xml = true; names.push("notify-broken-xml".into()); }
         2 => pick_snapshot(rng, &mut f, &mut names),
         3..=6 => {
@@ -167,7 +167,22 @@ fn run_c25(ctx: &mut Ctx, rep: &mut Report) {
                 match rng.usize(12) {
                     0..=5 | 10 => { let many = rng.chance(1, 4); let k = 1 + rng.usize(if many { 4 } else { 1 }); srv = head.clone(); if rng.chance(1, 6) { srv.list_deltas = 20; } for _ in 0..k { let n = mutate_objects_sized(&mut rng, &srv.objects, &mut counter, limit.is_some()); srv.update(n); } head = srv.clone(); format!("update-x{k}") }
                     6 => { srv = head.clone(); srv.new_session(0x9000 + counter); counter += 1; srv.objects = mutate_objects_sized(&mut rng, &srv.objects, &mut counter, limit.is_some()); head = srv.clone(); "new-session".into() }
-                    7 | 8 => "no-change".into(),
+                    7 => "no-change".into(),
+                    8 => {
+                        // the server re-issues its current serial with other content (the delta of that serial changes, its
+                        // hash in the notification with it) and publishes one more version on top
+                        let prevs: Vec<usize> = (0..past.len()).filter(|i| past[*i].session == head.session && past[*i].serial + 1 == head.serial).collect();
+                        match prevs.last() {
+                            None => "no-change".into(),
+                            Some(i) => {
+                                srv = past[*i].clone(); srv.list_deltas = 20;
+                                let a = mutate_objects_sized(&mut rng, &srv.objects, &mut counter, limit.is_some()); srv.update(a);
+                                let b2 = mutate_objects_sized(&mut rng, &srv.objects, &mut counter, limit.is_some()); srv.update(b2);
+                                head = srv.clone();
+                                "reissue-current-serial+update".into()
+                            }
+                        }
+                    }
                     9 => { srv = head.clone(); srv.list_deltas = 1 + rng.usize(3); head = srv.clone(); "short-delta-list".into() }
                     _ => {
                         // an earlier notification of the current session is served again
@@ -176,7 +191,10 @@ fn run_c25(ctx: &mut Ctx, rep: &mut Report) {
                     }
                 }
             };
-            let (faults, fname) = pick_faults(&mut rng);
+            let (mut faults, mut fname) = pick_faults(&mut rng);
+            // a re-issued serial is only detectable through the delta list of an undisturbed notification (a list that
+            // hides the re-issued delta gives a client nothing to compare): this step is rendered without faults
+            if op.starts_with("reissue") { faults = Faults::default(); fname = "none".into(); }
             fake.clear();
             srv.install(&fake, &faults);
             // older delta and snapshot documents of this session stay available (plain, without faults)
